@@ -79,6 +79,13 @@ def hrevolve(tier):
             for c1 in range(0, c1max + 1):
                 for c in COSTS:
                     out.append((f"HR {n} {c0} {c1} {c}", n, 1))
+    # the clamp boundary of the disk level (a slot for every step), as for Multistage
+    for n in range(2, (14 if tier == "quick" else 24) + 1):
+        for c0 in (1, 2):
+            for c1 in (n - 2, n - 1, n, n + 2):
+                if c1 > c1max:
+                    for c in COSTS:
+                        out.append((f"HR {n} {c0} {c1} {c}", n, 1))
     return out
 
 
@@ -200,6 +207,65 @@ GROUPS = {
 }
 
 
+DEEP = False   # set by ./check when an anchored source file differs from the fingerprint baseline
+
+
+def far(tier):
+    """A thin shell of FAR points (thorough tier, and whenever an anchored file changed): sizes beyond the small-int /
+    8-bit / 9-bit boundaries (257, 300, 520), unit counts beyond 8, the band 6s <= n < s*s/2, extreme but legitimate
+    cost vectors (|ub/uf| up to 2^11, disk 250x a step, ratios that hit binomial coefficients exactly)."""
+    out = []
+    for n in (257, 300, 1025):
+        out += [("SM", n, 2), ("NO", n, 1), ("SD 0", n, 2), ("SD 1", n, 1)]
+    for p_, b in ((64, 9), (100, 12), (257, 3), (35, 2), (70, 3)):
+        for st in "RD":
+            for tr in TRAJ:
+                out += [(f"TL {p_} {b} {st} {tr}", 257, 2), (f"TL {p_} {b} {st} {tr}", 300, 1)]
+    for n in (257, 300):
+        for ram, disk in ((3, 0), (0, 3), (2, 9), (1, 12), (9, 2), (255, 3), (3, 255)):
+            for tr in TRAJ:
+                out.append((f"MS {n} {ram} {disk} {tr}", n, 1))
+    for s_ in range(9, 15):
+        for n in range(6 * s_ - 2, (s_ * s_) // 2 + 4, 3):
+            for ram in (1, 2, 3):
+                for tr in TRAJ:
+                    out.append((f"MS {n} {ram} {s_ - ram} {tr}", n, 1))
+    for n in (257, 300):
+        for s_ in (3, 9, 17, 255, 256, 299):
+            for st in "RD":
+                for nb in "01":
+                    if nb == "1" and s_ > 17:
+                        continue
+                    out.append((f"MX {n} {s_} {st} {nb}", n, 1))
+    out += [("MX 400 300 D 0", 400, 1), ("RV 520 9 1 1 2 2", 520, 1), ("MS 520 3 9 revolve", 520, 1)]
+    for cl in ("RV", "DR", "PD"):
+        for n in (257, 300):
+            for cm in (1, 2, 5, 9):
+                for c in ("1 1 2 2", "2 5 1 4"):
+                    out.append((f"{cl} {n} {cm} {c}", n, 1))
+        # nearly as many units as steps, beyond the small sizes
+        for n in (130, 257):
+            for cm in (n - 3, n - 2, n - 1, n):
+                out.append((f"{cl} {n} {cm} 1 1 2 2", n, 1))
+        for n in (60, 100, 130):
+            for cm in (1, 3):
+                for c in ("1 1000 2 2", "1 2048 0 0", "1000 1 2 2", "0.25 1024 2 2", "1 1 250 250", "1 100000 3 3"):
+                    out.append((f"{cl} {n} {cm} {c}", n, 1))
+    # periodic: cost ratios (wd+rd)/uf that are binomial coefficients C(cm+t, t) or just beside them
+    for cm, ratios in ((1, (54, 55, 56, 230, 231, 232)), (2, (454, 455, 456, 500, 559, 560)), (3, (83, 84, 85, 209, 210)),
+                       (5, (461, 462, 463))):
+        for r_ in ratios:
+            for n in (40, 130, 330):
+                out.append((f"PD {n} {cm} 1 1 {r_ - r_ // 2} {r_ // 2}", n, 1))
+    for n, c0, c1 in ((257, 2, 3), (300, 3, 4), (257, 1, 300)):
+        for c in ("1 1 2 2", "2 5 1 4"):
+            out.append((f"HR {n} {c0} {c1} {c}", n, 1))
+    for n in (60, 100):
+        for c in ("1 1000 2 2", "1 2048 0 0", "1000 1 2 2", "1 1 250 250"):
+            out.append((f"HR {n} 2 2 {c}", n, 1))
+    return out
+
+
 def streams(tier, seed, groups=None, with_invalid=False):
     out = load_corpus()
     for g, f in GROUPS.items():
@@ -208,6 +274,8 @@ def streams(tier, seed, groups=None, with_invalid=False):
         if groups is not None and g not in groups:
             continue
         out += f(tier)
+    if tier != "quick" or DEEP:
+        out += far(tier)
     rs = random_streams(seed, tier)
     if groups is not None:
         pref = {"basic": ("SM", "SD", "NO"), "twolevel": ("TL",), "multistage": ("MS",), "mixed": ("MX",),
